@@ -2,6 +2,9 @@ import Driver.Codec
 import HG.Model.Rename
 import HG.Model.Validate
 import HG.Model.TypeCompat
+import HG.Model.Cache
+import HG.Model.Sem
+import HG.Model.Events
 /-! Line protocol driver: one JSON request per line on stdin, one JSON response per line on stdout.
 Evaluates the model's own definitions; malformed requests yield `{"bad": reason}` (never a default). -/
 open Lean HG Driver
@@ -86,6 +89,65 @@ def handle (j : Json) : P Json := do
     let cols ← list tyOfJson (← field j "cols")
     pure (Json.mkObj [("m", .arr (rows.map fun a =>
       Json.str (String.ofList (cols.map fun b => if TypeCompat.compat a b then '1' else '0'))).toArray)])
+  | "lru" =>
+    let ms : Option Nat ← (match fieldD j "maxSize" .null with | .null => pure none | n => do pure (some (← nat n)))
+    let ops ← list (fun o => do
+      let a ← arr o
+      match a.toList with
+      | [t, k] => pure ((← str t) == "set", (← str k), Val.none)
+      | [t, k, v] => pure ((← str t) == "set", (← str k), (← val v))
+      | _ => throw "bad lru op") (← field j "ops")
+    pure (Json.mkObj [("gets", .arr ((Cache.runLruOps ms ops).map fun r =>
+      match r with | some v => encVal v | none => Json.mkObj [("miss", .num 1)]).toArray)])
+  | "disk" =>
+    let steps ← list (fun o => do
+      let t ← str (← field o "t")
+      let k ← str (← field o "k")
+      let hk := Cache.hmacKey k
+      match t with
+      | "set" => pure (Cache.Step.set k (← val (← field o "v")))
+      | "crashSet" => pure (Cache.Step.crashSet k (← val (← field o "v")))
+      | "get" => pure (Cache.Step.get k)
+      | "payload_flip" => pure (Cache.Step.tamper (.setCell k (.bytes [9, 9, 9, 7])))
+      | "payload_trunc" => pure (Cache.Step.tamper (.setCell k (.bytes [])))
+      | "payload_type" => pure (Cache.Step.tamper (.setCell k (.str "not-bytes")))
+      | "payload_del" => pure (Cache.Step.tamper (.delCell k))
+      | "hmac_del" => pure (Cache.Step.tamper (.delCell hk))
+      | "hmac_garbage" => pure (Cache.Step.tamper (.setCell hk (.str "garbage")))
+      | "hmac_type" => pure (Cache.Step.tamper (.setCell hk .other))
+      | s => throw s!"bad disk step {s}") (← field j "steps")
+    pure (Json.mkObj [("gets", .arr ((Cache.diskScenario steps).map fun g => Json.mkObj [
+      ("hit", match g.hit with | some v => encVal v | none => Json.mkObj [("miss", .num 1)]),
+      ("unpickled", .bool g.unpickleCalled)]).toArray)])
+  | "deliver" =>
+    -- dispatcher model: processors failing at given event indices
+    let n ← nat (← field j "n")
+    let procs ← list (fun o => do
+      let exc ← list nat (fieldD o "exc" (.arr #[]))
+      let base ← list nat (fieldD o "base" (.arr #[]))
+      let always ← bool (fieldD o "always" (.bool false))
+      let sd ← str (fieldD o "shutdown" (.str "ok"))
+      let p : Events.Processor Nat := {
+        onEvent := fun i _ => if base.contains i then .raiseBaseException else if always || exc.contains i then .raiseException else .ok
+        onShutdown := if sd == "base" then .raiseBaseException else if sd == "exc" then .raiseException else .ok }
+      pure p) (← field j "procs")
+    let d := Events.deliverAll procs (List.range n)
+    let sd := Events.shutdown procs
+    pure (Json.mkObj [
+      ("received", .arr (d.received.map fun l => Json.arr (l.map fun i => Json.num (JsonNumber.fromNat i)).toArray).toArray),
+      ("escaped", match d.escaped with | some (i, p) => .arr #[.num (JsonNumber.fromNat i), .num (JsonNumber.fromNat p)] | none => .null),
+      ("shutdownCalled", .arr (sd.called.map Json.bool).toArray),
+      ("shutdownEscaped", match sd.escaped with | some i => .num (JsonNumber.fromNat i) | none => .null)])
+  | "sem" =>
+    let k ← nat (← field j "k")
+    let n ← nat (← field j "leaves")
+    let evs ← list (fun o => do
+      let a ← arr o
+      match a.toList with
+      | [b, i] => pure ((← bool b), (← nat i))
+      | _ => throw "bad sem event") (← field j "events")
+    let r := Sem.replayDetail k (.par (List.replicate n .leaf)) evs
+    pure (Json.mkObj [("ok", .bool r.ok), ("max", .num (JsonNumber.fromNat r.maxInflight)), ("allDone", .bool r.allDone)])
   | "rename" =>
     -- rename bookkeeping: original names, optional constructor batch, successive call batches
     let orig ← list str (← field j "orig")
